@@ -1,4 +1,5 @@
 import LokiModel.C31.Unroll
+import LokiModel.C31.Perm
 /-!
 # C31 — loop transformations preserve behaviour where they apply (property theorems)
 
@@ -84,5 +85,32 @@ example : okSs "i" exBody = true := by decide
 example : escapes exBody = false := by decide
 example : unrollRange (.lit (.int 5)) (.lit (.int 2)) (some (.neg (.lit (.int 2)))) = some [5, 3] := by decide
 example : unrollRange (.lit (.int 1)) (.lit (.int 3)) none = some [1, 2, 3] := by decide
+
+
+/-! ### interchange (model `interchangeBody`: position p of the new nest gets the (variable, range) pair of the loop named `order[p]`) -/
+
+/-- **interchange keeps every (variable, range) pair intact**: for every requested order that is a permutation of the (distinct)
+loop variables — involution or not, any depth — the pairs given to the new nest are a permutation of the pairs of the old nest.
+Hence every loop variable still runs over its own range, and the set (multiset) of iteration tuples, read as assignments
+variable ↦ value, is the one of the original nest.  (A pairing of the variable of one loop with the range of another — what an
+inverse-instead-of-forward permutation lookup produces on a 3-cycle — is excluded; the correspondence ties `permuteSpecs` to the
+real `do_loop_interchange`.) -/
+theorem interchange_specs_perm (order : List String) (specs : List Spec) (hnd : (specs.map (·.v)).Nodup)
+    (hperm : order.Perm (specs.map (·.v))) : (permuteSpecs order specs).Perm specs := by
+  have := List.Perm.filterMap (fun nm => specs.find? fun sp => sp.v == nm) hperm
+  rw [show (specs.map (·.v)).filterMap (fun nm => specs.find? fun sp => sp.v == nm) = specs from permuteSpecs_self specs hnd] at this
+  exact this
+
+/-- same depth, and a pair occurs in the new nest iff it occurs in the old one -/
+theorem interchange_pairs_intact (order : List String) (specs : List Spec) (hnd : (specs.map (·.v)).Nodup)
+    (hperm : order.Perm (specs.map (·.v))) :
+    (permuteSpecs order specs).length = specs.length ∧ ∀ sp, sp ∈ permuteSpecs order specs ↔ sp ∈ specs :=
+  ⟨(interchange_specs_perm order specs hnd hperm).length_eq, fun _ => (interchange_specs_perm order specs hnd hperm).mem_iff⟩
+
+/-- non-vacuity: a 3-cycle on a 3-deep nest with three different ranges -/
+example :
+    (permuteSpecs ["i", "j", "k"]
+      [⟨"k", .lit (.int 1), .var "nclv", none⟩, ⟨"i", .lit (.int 1), .var "n", none⟩, ⟨"j", .lit (.int 1), .var "m", none⟩]).map
+        (fun sp => (sp.v, match sp.hi with | .var x => x | _ => "")) = [("i", "n"), ("j", "m"), ("k", "nclv")] := by decide
 
 end LokiModel.C31
